@@ -25,7 +25,7 @@ META = {
             "both runs are the explicit hypothesis Safe (heap below 2^63 cells, WFHeap/RootsOk of the erased heap, kind "
             "disciplines Plain and NoIofArg, bp-relative reads at or below sp); reflexivity is proved (sim_refl). Hence "
             "the *_partial names; sliced_value_eq_uninterrupted_partial is the closed-form corollary (same HALT, equal "
-            "datum read from acc).",
+            "datum read from acc). ROUND 4 (Safe is now an invariant theorem): sliced_value_eq_uninterrupted / sliced_error_eq_uninterrupted / sliced_value_eq_uninterrupted_eval restate T13.3 WITHOUT Safe. Safe m s0 is proved (Lemmas/GoodMain.safe_of_good) from GoodI of the INITIAL state only (WFHeap of the erased heap, Plain, code discipline of every lambda object LamOk = NoIofArg + MOV/MOVIMM never address a heap cell through a Ptr operand and load values, environment discipline EnvOk, allocated roots, a value in acc) by good_step (run_one preserves GoodI: heap clauses one lemma per opcode, Lemmas/GoodStep{A,B,C}.lean over the T03.3 lift Lemmas/GoodAlloc.lean; roots clause read off step_sim applied to the state and itself) and good_gc (run_gc preserves GoodI), and prepare_goodI (the state prepare_eval produces from an idle GoodI machine is GoodI). REMAINING explicit hypotheses: ExtLaws and ExtGood (laws of the four non-modelled parameters for the simulation / for the invariant), CompGood (same for the compiler in prepare_eval), SizeBounded (every reachable heap has at most 2^62 cells: the one size hypothesis, a physical fact, not an invariant), StackDiscAlong (frame discipline of the current instruction in every reachable state: bp-relative reads at or below sp, complete frame at RET/TCALL, and the stack cells an instruction consumes as values are values not frame-header cells; a consequence of WF-stack once the verifier types bp-relative sources and temporaries - not yet connected). Plain is NOT an invariant of run_one over arbitrary bytecode/stacks (CONS of a frame-header cell, MOV through a Ptr operand break it on the model and on the real VM alike): hence the code discipline in GoodI (checked on every real lambda by the safe-side-conditions stream of C03) and StackDiscAlong. The _partial theorems are kept.",
     "technique": "Lean 4 proof (generic refinement of the run_count loop to a collection-free reference, any budgets) + differential sliced-vs-uninterrupted runs and loop-trace correspondence",
 }
 MODULE = "Marwood.Proofs.C13"
@@ -43,6 +43,17 @@ THEOREMS = [
     "Marwood.Proofs.C13.sliced_equiv_uninterrupted_concrete_partial",
     "Marwood.Proofs.C13.sliced_value_eq_uninterrupted_partial",
     "Marwood.Proofs.C13.failingExt_laws",
+    "Marwood.Proofs.C13.failingExt_good",
+    "Marwood.Proofs.C13.sliced_value_eq_uninterrupted",
+    "Marwood.Proofs.C13.sliced_error_eq_uninterrupted",
+    "Marwood.Proofs.C13.sliced_value_eq_uninterrupted_eval",
+    "Marwood.Lemmas.Good.safe_of_good",
+    "Marwood.Lemmas.Good.good_step",
+    "Marwood.Lemmas.Good.good_gc",
+    "Marwood.Lemmas.Good.prepare_goodI",
+    "Marwood.Lemmas.Good.Demo.sHalt_goodI",
+    "Marwood.Lemmas.Good.Demo.sHalt_sizeBounded",
+    "Marwood.Lemmas.Good.Demo.sHalt_discAlong",
     "Marwood.Lemmas.Sim.cgc_sim",
     "Marwood.Lemmas.Sim.step_sim",
     "Marwood.Lemmas.Sim.execSim_all",
